@@ -18,6 +18,7 @@ EXTENDS Naturals, Sequences, FiniteSets, TLC
 Kinds == {"int", "intList", "tokens", "tokenLists", "model", "modelList", "modelUnion", "anyType", "wildcardList",
           "attributes", "primUnion", "compound", "enum", "nillableInt", "requiredInt",
           "hierarchy", "hierarchyList", "qname",
+          "enumTokens",                     \* an enumeration of xs:list values: every member value is an array
           "compoundIntBool"}                \* a compound field whose choices are int THEN bool (bool is a subclass of int in Python)     \* a field typed with the BASE of a chain H0 <- H1 <- H2 <- H3 (each level adds a required field)
 
 \* JSON shapes (the harness materialises them; names are self-describing)
@@ -51,6 +52,7 @@ Canonical(k, s) ==
     [] k = "hierarchyList" -> s \in {"emptyList", "listOfHObjs"}
     [] k = "qname"         -> s \in {"null", "str", "clarkStr"}
     [] k = "compoundIntBool" -> s \in {"emptyList", "intList", "boolList", "intBoolList"}
+    [] k = "enumTokens"    -> s \in {"null", "intList"}
 
 \* C10: a scalar the declared type has no lexical form for.  The decoder keeps it (as its lexical form) with a
 \* ConverterWarning, or fails with ParserError when conversion warnings are configured to fail.
@@ -58,6 +60,7 @@ Unconvertible(k, s) ==
   CASE k \in {"int", "nillableInt", "requiredInt"} -> s \in {"true", "float", "str"}
     [] k \in {"intList", "tokens"}                 -> s \in {"strList"}
     [] k = "enum"                                   -> s \in {"true", "int", "float", "numstr"}
+    [] k = "enumTokens"                             -> s \in {"int", "str", "numstr"}     \* ("int" is a proper PREFIX of a member)
     [] OTHER                                        -> FALSE
 
 \* sanity of the table itself (checked by TLC): every kind has a canonical shape, required fields never accept null
